@@ -394,7 +394,7 @@ fn ic_expected(n: usize, total: usize) -> f32 {
     }
 }
 
-fn oracle_ic(o: &Ontology) -> Result<(), String> {
+pub fn oracle_ic(o: &Ontology) -> Result<(), String> {
     let totals = [o.genes().count(), o.omim_diseases().count(), o.orpha_diseases().count()];
     let kinds = [InformationContentKind::Gene, InformationContentKind::Omim, InformationContentKind::Orpha];
     for id in tids(o) {
